@@ -119,8 +119,11 @@ void list_string_set(List_string *list, int index, const char *value) {
         exit(1);
     }
     
+    /* Copy first: value may be the element itself, e.g.
+     * list_string_set(l, i, list_string_get(l, i)) */
+    char *copy = strdup(value);
     free(list->data[index]);  /* Free old string */
-    list->data[index] = strdup(value);  /* Copy new string */
+    list->data[index] = copy;
 }
 
 /* Get the value at the specified index */
